@@ -34,6 +34,28 @@ def build_barcode_dir(dst, r):
         if TENX in os.path.basename(f):
             continue
         shutil.copy(f, os.path.join(dst, os.path.basename(f)))
+    # every second whitelist numbers its cells from 0 instead of 1 (cell index 0 is an index like any other)
+    for n, f in enumerate(sorted(glob.glob(os.path.join(dst, '*')))):
+        if n % 2 or f.endswith('.gz'):
+            continue
+        lines = open(f).read().split('\n')
+        out = []
+        ok = True
+        for line in lines:
+            parts = line.split()
+            if len(parts) != 2:
+                out.append(line)
+                continue
+            i = 0 if parts[0].isdigit() else 1
+            if not parts[i].isdigit():
+                ok = False
+                break
+            sep = '\t' if '\t' in line else ' '
+            parts[i] = str(int(parts[i]) - 1)
+            out.append(sep.join(parts))
+        if ok:
+            with open(f, 'w') as h:
+                h.write('\n'.join(out))
     seen = set()
     while len(seen) < 60:
         seen.add(''.join(r.choice('ACGT') for _ in range(16)))
